@@ -500,8 +500,9 @@ VarRunsOn(a, va, ps) ==        \* maximal runs (p, q), p < q, of consecutive var
     {pq \in (1..Len(ps)) \X (1..Len(ps)) :
         /\ pq[1] < pq[2] /\ OwnBin(a, va[ps[pq[1]]]) # 0
         /\ \A i \in pq[1]..pq[2] : OwnBin(a, va[ps[i]]) = OwnBin(a, va[ps[pq[1]]])
-        /\ (pq[1] = 1 \/ OwnBin(a, va[ps[pq[1] - 1]]) # OwnBin(a, va[ps[pq[1]]]))
-        /\ (pq[2] = Len(ps) \/ OwnBin(a, va[ps[pq[2] + 1]]) # OwnBin(a, va[ps[pq[1]]]))}
+        (* the neighbours lie in other bins (a neighbour between bins could be grouped either way: not judged) *)
+        /\ (pq[1] = 1 \/ OwnBin(a, va[ps[pq[1] - 1]]) \notin {0, OwnBin(a, va[ps[pq[1]]])})
+        /\ (pq[2] = Len(ps) \/ OwnBin(a, va[ps[pq[2] + 1]]) \notin {0, OwnBin(a, va[ps[pq[1]]])})}
 Within(r) == r.rs <= ReqMinStart(r) /\ ReqMaxEnd(r) <= r.re
 GeneDocOK(r) == \/ ~r.hg
                 \/ Req(r) = {} /\ (ClosedRange(r) \/ (~GeneTruthy(r) /\ r.rk = "none"))
